@@ -228,23 +228,23 @@ func (r *Report) Finish(seed int64, quiet bool, evidenceDir string) int {
 	}
 	sort.Strings(fns)
 	cov := map[string]any{
-		"explanation":         r.Explanation,
-		"obligations":         len(r.Obls),
-		"discharged":          discharged,
-		"evaluations":         len(r.Obls),
-		"distinct_nontrivial": len(distinct),
-		"rule":                "one obligation per (rule, construct) instance found in /repo's current source; distinct = distinct (rule, construct) keys; every obligation names a concrete code construct, none is trivial by construction",
-		"samples":             samples,
-		"checker_cmd":         fmt.Sprintf("/verif/bin/plverif check -p %s -tier %s", r.Prop, r.Tier),
-		"trusted_base":        r.Trusted,
-		"exhaustive":          r.Exhaustive,
+		"explanation":          r.Explanation,
+		"obligations":          len(r.Obls),
+		"discharged":           discharged,
+		"evaluations":          len(r.Obls),
+		"distinct_nontrivial":  len(distinct),
+		"rule":                 "one obligation per (rule, construct) instance found in /repo's current source; distinct = distinct (rule, construct) keys; every obligation names a concrete code construct, none is trivial by construction",
+		"samples":              samples,
+		"checker_cmd":          fmt.Sprintf("/verif/bin/plverif check -p %s -tier %s", r.Prop, r.Tier),
+		"trusted_base":         r.Trusted,
+		"exhaustive":           r.Exhaustive,
 		"obligations_per_rule": perRule,
-		"instance_floors":     r.Floors,
-		"functions_analysed":  fns,
-		"functions_count":     len(fns),
-		"known_findings_hit":  knownHits,
-		"notes":               r.Notes,
-		"counts":              r.Counts,
+		"instance_floors":      r.Floors,
+		"functions_analysed":   fns,
+		"functions_count":      len(fns),
+		"known_findings_hit":   knownHits,
+		"notes":                r.Notes,
+		"counts":               r.Counts,
 	}
 	for k, v := range r.Extra {
 		cov[k] = v
